@@ -195,5 +195,18 @@ func genEvents(repo string) (string, error) {
 		return "", fmt.Errorf("notesFileSuffix not found in install.go")
 	}
 	fmt.Fprintf(&b, "\n(* pkg/action/install.go *)\nDefinition notes_file_suffix : string := %s.\n", hx.CoqStr(nfs))
+	// resource policy (uninstall keeps annotated resources): pkg/kube/resource_policy.go
+	kf, _, err := parseFile(repo, "pkg/kube/resource_policy.go")
+	if err != nil {
+		return "", err
+	}
+	kc := allConstStrings(kf)
+	for _, c := range [][2]string{{"ResourcePolicyAnno", "resource_policy_annotation"}, {"KeepPolicy", "keep_policy"}} {
+		v, ok := kc[c[0]]
+		if !ok {
+			return "", fmt.Errorf("constant %s not found in resource_policy.go", c[0])
+		}
+		fmt.Fprintf(&b, "Definition %s : string := %s.\n", c[1], hx.CoqStr(v))
+	}
 	return b.String(), nil
 }
